@@ -74,6 +74,10 @@ if fid == 'F-46':
     g1 = ' '.join(set_value(source=parse(w['doc']), npath=w['path'][0], value=w['value']).split())
     g2 = ' '.join(set_value(source=parse(w['second_doc']), npath=w['path'][0], value=w['value']).split())
     out(g1 != w['expected'] or g2 != w['second_expected'], 'got %r / %r' % (g1, g2))
+if fid == 'F-49' and prop == 'C20':
+    try: parse(w['input']).rebuild(); out(False, 'returns')
+    except ValueError: out(False, 'ValueError')
+    except Exception as e: out(True, 'raises %s' % type(e).__name__)
 if fid == 'F-37':
     text, errs, _ = apply_ops(w['doc'], w['ops'])
     out(errs == [None] and not text.lstrip().startswith('let'), 'emitted %r' % text)
